@@ -1257,6 +1257,7 @@ class TT():
                     idx2 = index[i+len(index)//2]
                     if isinstance(idx1, slice) and isinstance(idx2, slice):
                         cores_new.append(self.cores[k][:, idx1, idx2, :])
+                        exclude.append(i)
                         k += 1
                     elif idx1 == None and idx2 == None:
                         # extend the tensor
@@ -1290,6 +1291,7 @@ class TT():
                 for i, idx in enumerate(index):
                     if isinstance(idx, slice):
                         cores_new.append(self.cores[k][:, idx, :])
+                        exclude.append(i)
                         k += 1
                     elif idx is None:
                         # extend the tensor
@@ -1309,7 +1311,7 @@ class TT():
 
             sliced = TT(cores_new)
             sliced.reduce_dims(exclude)
-            if (sliced.is_ttm == False and sliced.N == [1]) or (sliced.is_ttm and sliced.N == [1] and sliced.M == [1]):
+            if len(exclude) == 0 and ((sliced.is_ttm == False and sliced.N == [1]) or (sliced.is_ttm and sliced.N == [1] and sliced.M == [1])):
                 sliced = tn.squeeze(sliced.cores[0])
 
             # cores = None
@@ -1329,7 +1331,7 @@ class TT():
         elif isinstance(index, slice):
             # tensor is 1d and one slice is extracted
             if len(self.__N) == 1:
-                sliced = TT(self.cores[0][:, index, :])
+                sliced = TT([self.cores[0][:, index, :]])
             else:
                 raise InvalidArguments('Invalid slice. Tensor is not 1d.')
             # TODO
